@@ -1913,13 +1913,13 @@ let reparse nm p c v =
   | Ok a -> let (l, o) = a in InDatetime (l, o)
   | Raise _ -> v
 
-(** val write :
-    naive_mode -> year_mode -> precision -> pconstraint -> tsinput -> ustring
-    result **)
+(** val write_as :
+    naive_mode -> year_mode -> precision -> pconstraint -> precision ->
+    pconstraint -> tsinput -> ustring result **)
 
-let write nm ym p c v =
+let write_as nm ym p c p' c' v =
   match parse_into nm p c v with
-  | Ok a -> let (l, o) = a in format_dt ym p c l o
+  | Ok a -> let (l, o) = a in format_dt ym p' c' l o
   | Raise e -> Raise e
 
 (** val show_optZ : z option -> char list **)
@@ -1958,21 +1958,23 @@ let dt =
   instant_of
 
 (** val c15_case :
-    nat -> naive_mode -> year_mode -> precision -> pconstraint ->
+    nat -> naive_mode -> year_mode -> precision -> pconstraint -> bool ->
     (precision * pconstraint) option -> tsinput -> char list **)
 
-let c15_case k nm ym p c src v =
+let c15_case k nm ym p c lose src v =
   let v' =
     match src with
     | Some p0 -> let (sp, sc) = p0 in reparse nm sp sc v
     | None -> v
   in
+  let p' = if lose then PAny else p in
+  let c' = if lose then CExact else c in
   (match k with
    | O ->
      (match v' with
-      | InDatetime (l, o) -> show_text (format_dt ym p c l o)
+      | InDatetime (l, o) -> show_text (format_dt ym p' c' l o)
       | _ -> 'B'::('A'::('D'::('C'::('A'::('S'::('E'::[])))))))
    | S n0 ->
      (match n0 with
       | O -> show_parsed nm ym p c v'
-      | S _ -> show_text (write nm ym p c v')))
+      | S _ -> show_text (write_as nm ym p c p' c' v')))
